@@ -490,6 +490,32 @@ func c02Keys(w *World, r *Report) {
 			seen[v] = true
 			switch x := v.(type) {
 			case *ssa.Call:
+				// a helper of the module that is handed the map and returns the list of its keys
+				if g := x.Call.StaticCallee(); g != nil && g.Blocks != nil && strings.HasPrefix(pkgPathOf(g), modPath) && g.Signature.Results().Len() == 1 {
+					var m ssa.Value
+					for _, gb := range g.Blocks {
+						ret, ok := gb.Instrs[len(gb.Instrs)-1].(*ssa.Return)
+						if !ok {
+							continue
+						}
+						km := keysOf(ret.Results[0], seen)
+						prm, isP := km.(*ssa.Parameter)
+						if !isP {
+							return nil
+						}
+						var arg ssa.Value
+						for i, q := range g.Params {
+							if q == prm && i < len(x.Call.Args) {
+								arg = x.Call.Args[i]
+							}
+						}
+						if arg == nil || (m != nil && m != arg) {
+							return nil
+						}
+						m = arg
+					}
+					return m
+				}
 				if strings.HasPrefix(full(x), "slices.Sorted") || strings.HasPrefix(full(x), "slices.Collect") {
 					if in, ok := x.Call.Args[0].(*ssa.Call); ok && strings.HasPrefix(full(in), "maps.Keys") {
 						return in.Call.Args[0]
@@ -591,16 +617,41 @@ func c02Keys(w *World, r *Report) {
 					continue
 				}
 				attached = true
-				// sorted: the list is the result of slices.Sorted, or handed to a sort that dominates the reading loop
-				if lc, ok := list.(*ssa.Call); ok && strings.HasPrefix(full(lc), "slices.Sorted") {
-					sorted = true
-				}
-				for _, ref := range *list.Referrers() {
-					if sc, ok := ref.(*ssa.Call); ok && (full(sc) == "slices.Sort" || full(sc) == "sort.Strings" || strings.HasPrefix(full(sc), "slices.Sort[")) && len(sc.Call.Args) >= 1 && sc.Call.Args[0] == list {
-						if sc.Block().Dominates(ia.Block()) && sc.Block() != ia.Block() {
-							sorted = true
+				// sorted: the list is the result of slices.Sorted, or handed to a sort that dominates the place
+				// it is read (or, in a helper that returns it, the return)
+				var sortedAt func(list ssa.Value, use *ssa.BasicBlock, d int) bool
+				sortedAt = func(list ssa.Value, use *ssa.BasicBlock, d int) bool {
+					if lc, ok := list.(*ssa.Call); ok {
+						if strings.HasPrefix(full(lc), "slices.Sorted") {
+							return true
+						}
+						if g := lc.Call.StaticCallee(); g != nil && g.Blocks != nil && strings.HasPrefix(pkgPathOf(g), modPath) && d < 2 {
+							all, n := true, 0
+							for _, gb := range g.Blocks {
+								if ret, ok := gb.Instrs[len(gb.Instrs)-1].(*ssa.Return); ok && len(ret.Results) == 1 {
+									n++
+									if !sortedAt(ret.Results[0], gb, d+1) {
+										all = false
+									}
+								}
+							}
+							return all && n > 0
 						}
 					}
+					if list.Referrers() == nil {
+						return false
+					}
+					for _, ref := range *list.Referrers() {
+						if sc, ok := ref.(*ssa.Call); ok && (full(sc) == "slices.Sort" || full(sc) == "sort.Strings" || strings.HasPrefix(full(sc), "slices.Sort[")) && len(sc.Call.Args) >= 1 && sc.Call.Args[0] == list {
+							if sc.Block().Dominates(use) {
+								return true
+							}
+						}
+					}
+					return false
+				}
+				if sortedAt(list, ia.Block(), 0) {
+					sorted = true
 				}
 			}
 		}
@@ -1108,7 +1159,18 @@ func c02PredicateFlags(w *World, r *Report) {
 			panic(undecided{"ProgBuilder." + builder})
 		}
 		cleared := map[string]bool{}
-		for _, f := range append([]*ssa.Function{bf}, bf.AnonFuncs...) {
+		// the instruction(s) the builder emits: function literals or named functions handed to CodeFn
+		instrs := append([]*ssa.Function{bf}, bf.AnonFuncs...)
+		for _, g := range builderInstrFuncs(bf) {
+			dup := false
+			for _, h := range instrs {
+				dup = dup || h == g
+			}
+			if !dup {
+				instrs = append(instrs, g)
+			}
+		}
+		for _, f := range instrs {
 			for _, b := range f.Blocks {
 				for _, in := range b.Instrs {
 					st, ok := in.(*ssa.Store)
